@@ -674,10 +674,11 @@ func build(tier string) []item {
 			}
 			continue
 		}
+		// every model statement; the prefixes of every fourth one in the quick tier
+		add(item{Kind: "text", Text: in.Text, Origin: "model-statement"})
 		if i%step != 0 {
 			continue
 		}
-		add(item{Kind: "text", Text: in.Text, Origin: "model-statement"})
 		fs := strings.Fields(in.Text)
 		for n := 1; n < len(fs); n++ {
 			p := strings.Join(fs[:n], " ")
